@@ -295,6 +295,11 @@ func knownGapByRule(schema *ast.Schema, sv verdict, q string) string {
 				regexp.MustCompile(`[{,]\s*\w+\s*:\s*\$`+regexp.QuoteMeta(m[1])+`\b`).MatchString(q) {
 				g = "C04-variable-position-unchecked-in-input-objects"
 			}
+		case "ValuesOfCorrectType":
+			// null item of a [T!] list literal that is nested inside an input-object literal
+			if strings.Contains(e.Message, "found null") && regexp.MustCompile(`\{[^{}]*\[[^\]]*\bnull\b[^\]]*\]`).MatchString(q) {
+				g = "C04-null-item-in-nested-list-literal"
+			}
 		case "KnownArgumentNames":
 			// the offending field occurs more than once: field de-duplication merges the
 			// occurrences before validation sees them
